@@ -4,5 +4,6 @@ CONSTANTS MaxLen = 3
           Kinds3 = {"req", "opt"}
           Kinds4 = {"req"}
           MaxE4 = 0
-INIT Init
-NEXT NextGen
+INIT InitGenCall
+NEXT NextCall
+INVARIANT ReqOnlyIsLaw
